@@ -447,6 +447,63 @@ func c07ImportCases() []c07ImportCase {
 	}
 }
 
+// c07ImportSpace enumerates the qualified-name space at the import boundary: qualifier (none, an imported alias, a
+// second imported alias, an alias that was never imported) x callee name (public / private / underscore-led in the
+// first file, public only in the second file, defined only in the main file, defined nowhere) x a function of the
+// main file with one of those names (or none) x call site (top level, inside a function of the main file). The
+// oracle is the rule C07/C09 state: a bare name reaches exactly the main file's own functions, alias.Name exactly
+// the PUBLIC functions of the file imported under that alias - whatever else happens to carry the same name.
+// Accepted cases are executed: every function returns its own constant.
+type c07QualCase struct {
+	name, main string
+	accept     bool
+	want       string
+}
+
+const c07Lib1 = "func Get() int {\n\treturn 7\n}\nfunc helper() int {\n\treturn 8\n}\nfunc Wrap() int {\n\treturn helper() + 1\n}\nfunc _under() int {\n\treturn 9\n}\n"
+const c07Lib2 = "func Get() int {\n\treturn 70\n}\nfunc Only() int {\n\treturn 71\n}\nfunc helper() int {\n\treturn 72\n}\n"
+
+func c07ImportSpace() []c07QualCase {
+	pub1 := map[string]int{"Get": 7, "Wrap": 9}
+	pub2 := map[string]int{"Get": 70, "Only": 71}
+	var out []c07QualCase
+	for _, q := range []string{"", "lb", "lc", "xx"} {
+		for _, callee := range []string{"Get", "Wrap", "helper", "_under", "Only", "own", "Nope"} {
+			for _, def := range []string{"", "Get", "helper", "Only", "own", "_under"} {
+				for _, site := range []string{"top", "func"} {
+					src := "import (\n\tlb \"lib.tsh\"\n\tlc \"lib2.tsh\"\n)\n"
+					if def != "" {
+						src += "func " + def + "() int {\n\treturn 100\n}\n"
+					}
+					call := callee + "()"
+					if q != "" {
+						call = q + "." + call
+					}
+					if site == "top" {
+						src += "print(\"r\", " + call + ")\n"
+					} else {
+						src += "func site() int {\n\treturn " + call + " + 1000\n}\nprint(\"r\", site() - 1000)\n"
+					}
+					val, ok := 0, false
+					switch q {
+					case "":
+						if def == callee {
+							val, ok = 100, true
+						}
+					case "lb":
+						val, ok = pub1[callee], pub1[callee] != 0
+					case "lc":
+						val, ok = pub2[callee], pub2[callee] != 0
+					}
+					out = append(out, c07QualCase{name: fmt.Sprintf("qualifier=%s callee=%s main-defines=%s site=%s", map[bool]string{true: "none", false: q}[q == ""], callee, map[bool]string{true: "nothing", false: def}[def == ""], site),
+						main: src, accept: ok, want: fmt.Sprintf("r %d\n", val)})
+				}
+			}
+		}
+	}
+	return out
+}
+
 func C07() int {
 	r := findings.New("C07")
 	defer drive.Cleanup()
@@ -611,6 +668,38 @@ func C07() int {
 			}
 		}
 	}
+	// the qualified-name space (c07ImportSpace)
+	qc := c07ImportSpace()
+	drive.Par(len(qc), func(i int) {
+		ic := qc[i]
+		files := map[string]string{"main.tsh": ic.main, "lib.tsh": c07Lib1, "lib2.tsh": c07Lib2}
+		replay := func() findings.Replay {
+			return findings.Replay{Files: map[string]string{"src/main.tsh": ic.main, "src/lib.tsh": c07Lib1, "src/lib2.tsh": c07Lib2, "expected.txt": ic.want}, Script: transpileOnlyReplay()}
+		}
+		for t := 0; t < 2; t++ {
+			res := drive.Transpile(files, "main.tsh", drive.Target(t))
+			sym := ""
+			switch {
+			case res.Panic != "":
+				sym = "panic"
+			case ic.accept && !res.OK():
+				sym = "rejected"
+			case !ic.accept && !res.Rejected():
+				sym = "accepted"
+			}
+			if sym == "" && ic.accept && t == int(drive.Bash) {
+				got := runBashStable(res.Script, drive.RunOpts{})
+				if got.Runaway == "" && (got.Stdout != ic.want || got.Exit != 0 || got.Stderr != "") {
+					sym = "wrong-function-reached"
+				}
+			}
+			if sym != "" {
+				r.Fail("qualified-name "+ic.name+" symptom="+sym+"-"+drive.Target(t).String(), fmt.Sprintf("import boundary, %s: %s (%s)", ic.name, sym, res.Err), replay)
+			}
+		}
+	})
+	done += 2 * len(qc)
+	r.Set("qualified_name_cases", len(qc))
 	r.Set("import_boundary_cases", len(c07ImportCases()))
 	r.Set("skeletons_also_judged_as_imported_file", libDone)
 	r.Set("skeletons_executed_as_imported_file", libExecuted)
@@ -621,7 +710,7 @@ func C07() int {
 	r.Set("evaluations", done)
 	r.Set("distinct_nontrivial", distinct.Len())
 	r.Set("exhaustive", !capped)
-	r.Set("rule", "every block-structure skeleton with n items in total, nesting depth <= 3, <= 3 items per block over {define x, use x, assign x, break, continue, return, call f, call g, if, for x:=.., for i,x := range, for j:=.., switch(2 branches), func f(x), func f() int, func g(), func g() int without final return}; an independent scoper decides accept/reject/unspecified from the rules C07 states; both targets must agree with it; accepted programs are also executed against the reference interpreter. Plus a two-file import-boundary table. Distinct by source text.")
+	r.Set("rule", "every block-structure skeleton with n items in total, nesting depth <= 3, <= 3 items per block over {define x, use x, assign x, break, continue, return, call f, call g, if, for x:=.., for i,x := range, for j:=.., switch(2 branches), func f(x), func f() int, func g(), func g() int without final return}; an independent scoper decides accept/reject/unspecified from the rules C07 states; both targets must agree with it; accepted programs are also executed against the reference interpreter. Plus a two-file import-boundary table and the qualified-name space (qualifier x callee name x a main-file function of such a name x call site over a main file and two imported files; accepted cases executed). Distinct by source text.")
 	r.Assumef("unspecified and therefore skipped: break inside a switch outside a loop, returning a value from a result-less function (typing, C06), value-returning functions ending in a compound statement")
 	return finish(r)
 }
